@@ -51,7 +51,44 @@ def mods():
         from sc3.seq import pattern as ptt
         from sc3.base import builtins as bi, stream as stm
         _mods.update(lp=lp, fp=fp, vp=vp, up=up, ptt=ptt, bi=bi, stm=stm)
+        # Ptrace prints through the logger 'Ptrace': keep the records (the
+        # last few) instead of writing them to the worker's stderr
+        import logging
+        lg = logging.getLogger('Ptrace')
+        lg.addHandler(TRACE)
+        lg.setLevel(logging.INFO)
+        lg.propagate = False
     return _mods
+
+
+import collections
+import logging as _logging
+
+
+class _TraceHandler(_logging.Handler):
+    def __init__(self):
+        super().__init__(_logging.INFO)
+        self.records = collections.deque(maxlen=4096)
+        self.total = 0
+
+    def emit(self, record):
+        self.total += 1
+        try:
+            self.records.append(record.getMessage())
+        except Exception as e:          # formatting failed: keep the fact
+            self.records.append(f'<unformattable: {type(e).__name__}>')
+
+    def createLock(self):               # the harness interrupts with SIGALRM:
+        self.lock = None                # no lock that could stay held
+
+    def acquire(self):
+        pass
+
+    def release(self):
+        pass
+
+
+TRACE = _TraceHandler()
 
 
 PYOPS = {'add': operator.add, 'sub': operator.sub, 'mul': operator.mul,
@@ -92,7 +129,42 @@ def fixed_classes():
                         inval = yield it.send(inval)
                 except StopIteration as e:
                     return e.value
+
+        class PproductAlias(m['up'].Pproduct):
+            # every value gets its own list
+            def __init__(self, func, patterns):
+                super().__init__(func, patterns)
+                f = self.func
+                self.func = lambda values: f(list(values))
+
+        class PproductInval(m['up'].Pproduct):
+            # input values are handed to the sources and on to what follows
+            def __embed__(self, inval):
+                n = len(self.patterns)
+                return (yield from self._rec(inval, 0, [None] * n))
+
+            def _rec(self, inval, level, values):
+                s = stm.stream(self.patterns[level])
+                try:
+                    while True:
+                        values[level] = s.next(inval)
+                        if level < len(values) - 1:
+                            inval = yield from self._rec(inval, level + 1, values)
+                        else:
+                            inval = yield self.func(values)
+                except stm.StopStream:
+                    pass
+                return inval
+
+        class PproductBoth(PproductInval):
+            def __init__(self, func, patterns):
+                super().__init__(func, patterns)
+                f = self.func
+                self.func = lambda values: f(list(values))
         _fixed.update(Pdrop=PdropFixed, Prout=ProutFixed)
+        _fixed[True, False] = PproductInval
+        _fixed[False, True] = PproductAlias
+        _fixed[True, True] = PproductBoth
     return _fixed
 
 
@@ -110,9 +182,13 @@ def build(x):
         if 'Pdrop' in REPAIR:
             fp = type('fp', (), dict(vars(fp)))
             fp.Pdrop = fx['Pdrop']
-        if 'Prout' in REPAIR:
+        pp = ('Pproduct-inval' in REPAIR, 'Pproduct-alias' in REPAIR)
+        if 'Prout' in REPAIR or any(pp):
             up = type('up', (), dict(vars(up)))
-            up.Prout = fx['Prout']
+            if 'Prout' in REPAIR:
+                up.Prout = fx['Prout']
+            if any(pp):
+                up.Pproduct = fx[pp]
     if name == 'Pseq':
         return lp.Pseq([B(i) for i in x[1]], x[2], x[3])
     if name == 'Pser':
@@ -199,6 +275,48 @@ def build(x):
         return fp.Pwrap(B(x[1]), B(x[2]), B(x[3]))
     if name == 'Pseed':
         return fp.Pseed(B(x[1]), build_rand(x[2]))
+    if name == 'Pwhile':
+        _, op, t, sub = x
+        if op == 'lt':
+            f = lambda inval: iv(inval) < t
+        elif op == 'ge':
+            f = lambda inval: iv(inval) >= t
+        elif op == 'always':
+            f = (lambda: True) if isinstance(t, int) else (lambda inval: True)
+        else:
+            f = (lambda: False) if isinstance(t, int) else (lambda inval: False)
+        return fp.Pwhile(f, B(sub))
+    if name == 'Platch':
+        if x[2] is True:
+            return fp.Platch(B(x[1]))           # trig=True is the default
+        return fp.Platch(B(x[1]), B(x[2]))
+    if name == 'Pprorate':
+        if x[2] == 1 and type(x[2]) is int:
+            return fp.Pprorate(B(x[1]))         # proportion=1 is the default
+        return fp.Pprorate(B(x[1]), B(x[2]))
+    if name == 'Pproduct':
+        return up.Pproduct(PRODUCT_FUNCS[x[1]], [B(i) for i in x[2]])
+    if name == 'Pwalk':
+        _, items, steps, dirs, start = x
+        if isinstance(dirs, str) and dirs == OMIT:
+            return lp.Pwalk([B(i) for i in items], B(steps), start=start)
+        return lp.Pwalk([B(i) for i in items], B(steps), B(dirs), start)
+    if name == 'Pgate':
+        return fp.Pgate(B(x[1]), x[2], x[3])
+    if name == 'Ptrace':
+        if x[1] == 'meth':
+            return B(x[2]).trace()
+        if x[1] == 'prefix':
+            return B(x[2]).trace('t:')
+        return fp.Ptrace(B(x[2]))
+    if name == 'Pvalue':
+        return vp.Pvalue(B(x[1]))
+    if name == 'Pgen':
+        _, style, a, b, n = x
+        cls = gen_classes()['Pgen' in REPAIR, style == 'plain']
+        if style == 'kwargs':
+            return cls(B(a), n=n, b=B(b))
+        return cls(B(a), B(b), n)
     if name == 'Punop':
         _, op, form, a = x
         a = B(a)
@@ -226,6 +344,70 @@ def build(x):
             return _method(a, op)(*args)
         return getattr(bi, op)(a, *args)
     raise ValueError(name)
+
+
+PRODUCT_FUNCS = {
+    None: None,                                  # the default: the value list
+    'list': lambda vals: list(vals),
+    'sum': lambda vals: sum(vals),
+    'dot': lambda vals: sum((i + 1) * v for i, v in enumerate(vals)),
+}
+
+_gen = {}
+
+
+def gen_classes():
+    """Patterns made with the `pattern` decorator (as its doc string shows:
+    the arguments become streams and are pulled with next()).  'protocol'
+    hands the value sent to it on (return value = last input value), 'plain'
+    is written exactly like the doc string's example."""
+    if not _gen:
+        m = mods()
+        stream = m['stm'].stream
+
+        def gfunc_mix(a, b, n):
+            sa, sb = stream(a), stream(b)
+            inval = None
+            for _ in range(n):
+                try:
+                    x = next(sa)
+                    y = next(sb)
+                except StopIteration:
+                    return inval
+                inval = yield x * 2 + y
+            return inval
+
+        def gfunc_mix_plain(a, b, n):
+            sa, sb = iter(stream(a)), stream(b)
+            try:
+                for _ in range(n):
+                    x = next(sa)
+                    y = next(sb)
+                    yield x * 2 + y
+            except StopIteration:
+                return
+
+        deco = m['ptt'].pattern
+        _gen[False, False] = deco(gfunc_mix)
+        _gen[False, True] = deco(gfunc_mix_plain)
+
+        # classifier only: the decorator's pattern with an __embed__ that
+        # hands the input values on (see fixed_classes)
+        def fixed(cls):
+            class Fixed(cls):
+                def __embed__(self, inval=None):
+                    it = type(self)._gfunc(*self._args, **self._kwargs)
+                    try:
+                        inval = yield next(it)
+                        while True:
+                            inval = yield it.send(inval)
+                    except StopIteration:
+                        return inval
+            Fixed._gfunc = cls._gfunc
+            return Fixed
+        _gen[True, False] = fixed(_gen[False, False])
+        _gen[True, True] = fixed(_gen[False, True])
+    return _gen
 
 
 shadowed = {}      # (class, operator method) hidden by an instance attribute
@@ -260,6 +442,13 @@ def build_rand(spec):
     if name == 'Pwrand':
         return lp.Pwrand(list(spec[1]), None if spec[2] is None else list(spec[2]),
                          spec[3])
+    if name in ('Plprand', 'Phprand', 'Pmeanrand', 'Pbeta', 'Pcauchy', 'Pgauss',
+                'Ppoisson', 'Pexprand', 'Pgbrown'):
+        return getattr(vp, name)(*spec[1:])
+    if name == 'Pprob':
+        return vp.Pprob(list(spec[1]), spec[2], spec[3], length=spec[4])
+    if name == 'Pfsm':
+        return lp.Pfsm(copy.deepcopy(spec[1]), spec[2])
     raise ValueError(name)
 
 
@@ -284,6 +473,11 @@ def rand_leaf_problem(spec, vals):
             return 'length'
         if any(not (lo <= v <= hi) for v in vals):
             return 'range'
+        # "step: maximum change per step": where no reflection at a boundary
+        # is possible the next value is within step of the previous one
+        for a, b in zip(vals, vals[1:]):
+            if lo <= a - step and a + step <= hi and abs(b - a) > step * (1 + 1e-9):
+                return 'moved-more-than-step'
     elif name in ('Prand', 'Pxrand'):
         _, items, n = spec
         if len(vals) != n:
@@ -302,6 +496,42 @@ def rand_leaf_problem(spec, vals):
         if weights is not None and any(
                 weights[items.index(v)] == 0 for v in vals):
             return 'zero-weight-item-chosen'
+    elif name in ('Plprand', 'Phprand', 'Pmeanrand', 'Pbeta', 'Pexprand', 'Pgbrown',
+                  'Pprob'):
+        # "lo, hi: lower / upper boundary of values"; the kernels compute
+        # lo + x * (hi - lo) and similar in floating point: one part in 1e12
+        lo, hi = (spec[1], spec[2]) if name != 'Pprob' else (spec[2], spec[3])
+        n = spec[-1]
+        if len(vals) != n:
+            return 'length'
+        tol = 1e-12 * max(abs(lo), abs(hi), 1.0)
+        if any(not isinstance(v, (int, float)) or isinstance(v, bool)
+               or not (lo - tol <= v <= hi + tol) for v in vals):
+            return 'range'
+        if name in ('Plprand', 'Phprand') and isinstance(lo, int) and \
+                isinstance(hi, int) and any(not isinstance(v, int) for v in vals):
+            return 'type'
+        if name == 'Pgbrown' and lo > 0:
+            # geometric: "step: maximum multiplication factor per step" -
+            # the next value is the previous one times 1 - step .. 1 + step
+            # (where that cannot leave lo..hi, so nothing is folded back)
+            step = spec[3]
+            for a, b in zip(vals, vals[1:]):
+                if lo <= a * (1 - step) and a * (1 + step) <= hi and not (
+                        a * (1 - step) * (1 - 1e-9) <= b <= a * (1 + step) * (1 + 1e-9)):
+                    return 'factor-beyond-step'
+    elif name in ('Pcauchy', 'Pgauss'):
+        if len(vals) != spec[-1]:
+            return 'length'
+        if any(not isinstance(v, float) for v in vals):
+            return 'type'
+    elif name == 'Ppoisson':
+        if len(vals) != spec[-1]:
+            return 'length'
+        if any(not isinstance(v, int) or isinstance(v, bool) or v < 0 for v in vals):
+            return 'range'
+    elif name == 'Pfsm':
+        return fsm_problem(spec, vals)
     elif name == 'Pshuffle':
         _, items, reps = spec
         k = len(items)
@@ -312,6 +542,39 @@ def rand_leaf_problem(spec, vals):
             return 'range'
         if any(vals[i * k:(i + 1) * k] != first for i in range(reps)):
             return 'order'
+    return None
+
+
+def fsm_problem(spec, vals):
+    """Pfsm: "the initial state is chosen at random from the entry states, that
+    state's item is returned and the next state is chosen from its array of
+    possible next states; a nil item ends the stream" - `repeats` runs."""
+    _, lst, repeats = spec
+    ns = (len(lst) - 1) // 2 - 1            # index of the terminal state
+    items = [lst[1 + 2 * i] for i in range(ns)]
+    nxt = [lst[2 + 2 * i] for i in range(ns)]
+    entry = lst[0]
+    runs = 1
+    prev = None
+    for v in vals:
+        if v not in items:
+            return 'range'
+        st = items.index(v)
+        if prev is None:
+            if st not in entry:
+                return 'first-state-not-an-entry-state'
+        elif st not in nxt[prev]:
+            if ns in nxt[prev] and st in entry:
+                runs += 1                   # ended and started again
+            else:
+                return 'transition-not-allowed'
+        elif ns in nxt[prev] and st in entry:
+            pass                            # either a transition or a new run
+        prev = st
+    if prev is not None and ns not in nxt[prev]:
+        return 'ended-in-a-state-without-end-transition'
+    if runs > repeats:
+        return 'more-runs-than-repeats'
     return None
 
 
@@ -326,6 +589,13 @@ def real_take(pat, n, how='iter', inval=None):
     try:
         if how == 'iter':
             it = iter(pat)
+            for _ in range(n):
+                try:
+                    vals.append(next(it))
+                except StopIteration:
+                    return vals, True, None
+        elif how == 'iterstream':
+            it = iter(stm.stream(pat))          # Stream.__iter__
             for _ in range(n):
                 try:
                     vals.append(next(it))
